@@ -17,8 +17,26 @@ from lib.c06_miniql import FN_IX, STD_FNS
 INT, BOOL = 'int', 'bool'
 
 
+def toy_text(text: str, sch) -> str:
+    """the toy model has no inheritance: `(DETACHED Tn)` is expanded, for the toy only, into the UNION of the
+    exact types of the lineage of Tn (ascending = database order)"""
+    import re
+    from lib.c06_miniql import lineage
+
+    def rep(m):
+        lin = sorted(lineage(sch, int(m.group(1))))
+        if len(lin) == 1:
+            return m.group(0)
+        return '(' + ' union '.join(f'(DETACHED T{x})' for x in lin) + ')'
+    return re.sub(r'\(DETACHED T(\d+)\)', rep, text)
+
+
 def sdl_of(sch) -> str:
     out = []
+    bases = {}
+    for b, cs in sch.get('children', {}).items():
+        for c in cs:
+            bases.setdefault(c, []).append(b)
     for t in range(sch['ntypes']):
         body = []
         for k, p in enumerate(sch['ptrs']):
@@ -28,7 +46,8 @@ def sdl_of(sch) -> str:
             tgt = 'int64' if p['link'] is None else f"T{p['link']}"
             ex = ' { constraint exclusive }' if p['exclusive'] else ''
             body.append(f'  {q}p{k}: {tgt}{ex};')
-        out.append(f'type T{t} {{\n' + '\n'.join(body) + '\n}' if body else f'type T{t};')
+        ext = (' extending ' + ', '.join(f'T{b}' for b in sorted(bases[t]))) if t in bases else ''
+        out.append(f'type T{t}{ext} {{\n' + '\n'.join(body) + '\n}' if body else f'type T{t}{ext};')
     return '\n'.join(out)
 
 
@@ -357,4 +376,45 @@ def stmt_combos():
                     if not fl:
                         out.append(dict(name=name + '/shape', term=t, text=f'select T0 {{ z := ({tx}) }}',
                                         pos='shape'))
+    return out
+
+
+# ------------------------------------------------------------------ UNION of object types under inheritance
+# T0 Named <- T1 Person <- T2 Employee ; T3 Robot extending Named ; T4 Cyborg extending Employee, Robot ; T5 Note
+HIER_SCHEMA = {
+    'ntypes': 6,
+    'children': {0: [1, 3], 1: [2], 2: [4], 3: [4]},
+    'descs': {0: [1, 2, 3, 4], 1: [2, 4], 2: [4], 3: [4]},
+    'ptrs': [dict(src=0, required=False, multi=False, link=None, exclusive=False),     # p0 on Named
+             dict(src=0, required=False, multi=True, link=5, exclusive=False),         # p1: Named -> multi Note
+             dict(src=5, required=False, multi=False, link=None, exclusive=False)],    # p2 on Note
+}
+HIER_DB = {'objs': [(1, 0), (2, 1), (3, 2), (4, 3), (5, 4), (6, 5), (7, 5)],
+           'ptrs': {(0, 1): [1], (0, 3): [1], (0, 5): [2], (1, 1): [('o', 6)], (1, 2): [('o', 6), ('o', 7)],
+                    (1, 5): [('o', 7)], (2, 6): [0]}}
+
+
+def union_pairs():
+    """`X UNION Y`, `DISTINCT (X UNION Y)`, `count(X UNION Y)`, `(X UNION Y).p1` for every ordered pair of the six
+    types (ancestor/descendant at distance 1, 2, 3, siblings sharing the deep subtype T4, unrelated), and
+    `(X UNION Y) UNION Z` for every pair and Z in {Employee, Robot, Note}.  -> dicts {name, term, text, nested}"""
+    n = HIER_SCHEMA['ntypes']
+    named = [0] + HIER_SCHEMA['descs'][0]
+    out = []
+    R = lambda t: (('root', t), f'(DETACHED T{t})')     # noqa: E731
+    for x in range(n):
+        for y in range(n):
+            (tx, sx), (ty, sy) = R(x), R(y)
+            u, su = ('union', tx, ty), f'({sx} union {sy})'
+            out.append(dict(name=f'T{x}|T{y}/union', term=u, text=f'select {su}', nested=False))
+            out.append(dict(name=f'T{x}|T{y}/distinct', term=('distinct', u), text=f'select (distinct {su})',
+                            nested=False))
+            out.append(dict(name=f'T{x}|T{y}/count', term=('call', FN_IX['count'], (u,)), text=f'select count({su})',
+                            nested=False))
+            if x in named and y in named:
+                out.append(dict(name=f'T{x}|T{y}/link', term=('path', u, 1), text=f'select {su}.p1', nested=False))
+            for z in (2, 3, 5):
+                tz, sz = R(z)
+                out.append(dict(name=f'T{x}|T{y}|T{z}/union', term=('union', u, tz),
+                                text=f'select ({su} union {sz})', nested=True))
     return out
